@@ -1,6 +1,7 @@
 package vc
 
 import (
+	"sort"
 	"fmt"
 	"go/token"
 	"go/types"
@@ -129,13 +130,15 @@ func (fc *FuncCtx) execInstr(ins ssa.Instruction, st *State, reach string) {
 		fn := x.Fn.(*ssa.Function)
 		fc.vals[x] = Val{T: fc.fnID(fn), Ty: x.Type(), Fn: fn, Clo: x}
 	case *ssa.RunDefers:
-		// no Defer instructions are accepted (checked up front)
+		fc.execRunDefers(st, reach)
+	case *ssa.Defer:
+		fc.execDefer(x, st, reach)
 	case *ssa.DebugRef:
 	case *ssa.Range:
 		fc.execRange(x, st, reach)
 	case *ssa.Next:
 		fc.execNext(x, st, reach)
-	case *ssa.Defer, *ssa.Go, *ssa.Select, *ssa.Send:
+	case *ssa.Go, *ssa.Select, *ssa.Send:
 		panic(unsupported(fmt.Sprintf("instruction %T", ins)))
 	default:
 		panic(unsupported(fmt.Sprintf("instruction %T (%s)", ins, ins)))
@@ -646,10 +649,132 @@ func (fc *FuncCtx) needImplements() {
 }
 
 // Range / Next: only strings and maps are iterated this way in SSA.
+// A map or string iteration is abstracted: each Next yields "done" or some element of the
+// collection, with no memory of earlier elements (an over-approximation of every
+// iteration order; with it nothing can be proved about the order, which is the point).
 func (fc *FuncCtx) execRange(x *ssa.Range, st *State, reach string) {
-	panic(unsupported("range over map or string"))
+	fc.vals[x] = fc.val(st, x.X)
 }
 
 func (fc *FuncCtx) execNext(x *ssa.Next, st *State, reach string) {
-	panic(unsupported("range over map or string"))
+	rg, ok := x.Iter.(*ssa.Range)
+	if !ok {
+		panic(unsupported("next on an unknown iterator"))
+	}
+	coll := fc.val(st, rg.X)
+	okT := fc.fresh("Bool", "next_ok")
+	tup := x.Type().(*types.Tuple)
+	switch u := rg.X.Type().Underlying().(type) {
+	case *types.Map:
+		dk, vk := fc.mapComps(u)
+		k := fc.fresh(fc.S.SortOf(u.Key()), "next_k")
+		fc.assume(reach, fc.typeInv(st, k, u.Key()))
+		fc.assume(reach, implies(okT, "(and (not (= "+coll.T+" 0)) (select (select "+fc.get(st, dk)+" "+coll.T+") "+k+"))"))
+		v := fc.define(fc.S.SortOf(u.Elem()), "(select (select "+fc.get(st, vk)+" "+coll.T+") "+k+")", "next_v")
+		fc.assume(reach, implies(okT, fc.typeInv(st, v, u.Elem())))
+		fc.vals[x] = Val{Ty: tup, Tuple: []Val{{T: okT, Ty: types.Typ[types.Bool]}, {T: k, Ty: u.Key()}, {T: v, Ty: u.Elem()}}}
+	case *types.Basic: // string
+		i := fc.fresh("Int", "next_i")
+		r := fc.fresh("Int", "next_r")
+		fc.assume(reach, implies(okT, "(and (<= 0 "+i+") (< "+i+" (strlen "+coll.T+")) (<= 0 "+r+") (<= "+r+" 1114111))"))
+		fc.vals[x] = Val{Ty: tup, Tuple: []Val{{T: okT, Ty: types.Typ[types.Bool]}, {T: i, Ty: types.Typ[types.Int]}, {T: r, Ty: types.Typ[types.Rune]}}}
+	default:
+		panic(unsupported("range over " + rg.X.Type().String()))
+	}
+}
+
+// ---- defer ---------------------------------------------------------------------------------
+//
+// A deferred call (never inside a loop, no recover) is recorded with the values its
+// operands have at the defer statement and the condition under which the statement was
+// reached; at every `rundefers` the recorded calls run in reverse order, each under its
+// condition.
+
+type deferRec struct {
+	ins    *ssa.Defer
+	armed  string
+	recv   Val
+	callee Val
+	args   []Val
+	binds  []Val
+}
+
+func (fc *FuncCtx) execDefer(x *ssa.Defer, st *State, reach string) {
+	d := deferRec{ins: x, armed: fc.define("Bool", reach, "armed")}
+	c := &x.Call
+	if c.IsInvoke() {
+		d.recv = fc.val(st, c.Value)
+	} else if _, isB := c.Value.(*ssa.Builtin); !isB {
+		d.callee = fc.val(st, c.Value)
+		if d.callee.Clo != nil {
+			for _, b := range d.callee.Clo.Bindings {
+				d.binds = append(d.binds, fc.val(st, b))
+			}
+		}
+	}
+	for _, a := range c.Args {
+		d.args = append(d.args, fc.val(st, a))
+	}
+	fc.defers = append(fc.defers, d)
+}
+
+func (fc *FuncCtx) execRunDefers(st *State, reach string) {
+	for i := len(fc.defers) - 1; i >= 0; i-- {
+		d := fc.defers[i]
+		c := &d.ins.Call
+		cond := and(reach, d.armed)
+		if cond == "false" {
+			continue
+		}
+		pre := st.clone()
+		switch {
+		case c.IsInvoke():
+			site := fc.siteKey("defer." + c.Method.Name())
+			fc.oblige(fmt.Sprintf("call.%s/nonnil", site), "nil", cond, "(not (= "+d.recv.T+" iface_nil))", d.ins.Pos(), "deferred method call on nil interface")
+			fc.noteAssumption(fmt.Sprintf("deferred interface method call %s (%s): treated as arbitrary code", c.Method.Name(), site))
+			fc.havocForArbitraryCall(append([]Val{d.recv}, d.args...), nil, st, cond)
+		case d.callee.Fn != nil:
+			fc.callFunction(nil, d.callee.Fn, d.args, d.binds, st, cond)
+		default:
+			if _, isB := c.Value.(*ssa.Builtin); isB {
+				panic(unsupported("deferred builtin"))
+			}
+			fc.noteAssumption("deferred call through a function value: treated as arbitrary code")
+			fc.havocForArbitraryCall(d.args, nil, st, cond)
+		}
+		if d.armed == "true" {
+			continue
+		}
+		// the call ran only if the defer statement had been reached
+		var keys []string
+		seen := map[string]bool{}
+		for k := range st.m {
+			keys = append(keys, k)
+			seen[k] = true
+		}
+		for k := range pre.m {
+			if !seen[k] {
+				keys = append(keys, k)
+			}
+		}
+		sort.Strings(keys)
+		for _, k := range keys {
+			if _, reg := fc.compSort[k]; !reg {
+				continue
+			}
+			after, before := fc.get(st, k), fc.get(pre, k)
+			if after == before {
+				continue
+			}
+			so := fc.compSort[k]
+			t := "(ite " + d.armed + " " + after + " " + before + ")"
+			if strings.HasPrefix(so, "(Array") {
+				n := fc.fresh(so, "d_"+shortKey(k))
+				fc.emit("(assert (= " + n + " " + t + "))")
+				st.m[k] = n
+			} else {
+				st.m[k] = fc.define(so, t, "d_"+shortKey(k))
+			}
+		}
+	}
 }
